@@ -1,15 +1,23 @@
 (* C08 — Decoding cost is bounded by document size and configured limits.
    Only theorem statements here; each is closed by a lemma from Proofs/CostProofs.v.
 
-   The statements are about the cost model CE.Model.Cost (CBE decoder + the
-   validator's array accounting), tied to /repo by the correspondence run of the
-   check (error-or-not, len(Reader.buffer), Reader.bytesRead, events delivered:
-   exact; runtime.MemStats.TotalAlloc: bracketed; process deaths: explained).
+   The statements are about the cost model CE.Model.Cost (CBE decoder with the
+   repaired reader of /repo commit 8884bbf, which fills its buffer as data
+   arrives and doubles it only when full, + the validator's array accounting),
+   tied to /repo by the correspondence run of the check (error-or-not,
+   len(Reader.buffer), Reader.bytesRead, events delivered: exact;
+   runtime.MemStats.TotalAlloc: bracketed; process deaths: must be explained).
 
-   Quantification: every configuration [cfg] (validator present or not,
-   MaxArraySizeBytes, MaxDocumentSizeBytes), every external time decoder [ext],
-   every refusal point [stop] of whatever sits behind the decoder, every
-   document [d] (any byte list, any length).
+   Quantification: every configuration [cfg] (validator present or not, any
+   MaxArraySizeBytes incl. 0 = unlimited, any MaxDocumentSizeBytes), every
+   external time decoder [ext], every refusal point [stop] of whatever sits
+   behind the decoder, every document [d] (any byte list, any length).
+
+   History: on the reader that allocated twice the ANNOUNCED length before
+   reading, C08_full was false (an 8-byte document announcing a 2^30-byte chunk
+   without a validator: 2 GiB; a 9-byte document announcing a 2^29-byte media
+   type with one: 1 GiB).  Those documents are pinned in the harness (c08.go,
+   c08PinnedWitnesses) and evaluated below on the current model.
 
    Named gap: the Go allocator / GC and the CTE front end (ANTLR) are not
    modelled; CTE cost is measured only. *)
@@ -19,7 +27,7 @@ Import ListNotations.
 Open Scope N_scope.
 
 (* ------------------------------------------------------------------ *)
-(* The full property (FALSE on the current code)                        *)
+(* The property                                                         *)
 (* ------------------------------------------------------------------ *)
 
 (* "The memory a decoder allocates for a document is at most a fixed multiple of
@@ -29,131 +37,87 @@ Definition C08_full : Prop :=
   forall cfg ext stop d,
     alloc cfg ext stop d <= 64 * N.of_nat (length d) + 2 * max_array cfg + 1048576.
 
-(* Defect class 1 (reader): without a validator nothing compares an announced
-   chunk length with anything: an 8-byte document makes the reader allocate 2 GiB. *)
-Theorem C08_full_refuted_chunk_without_validator :
-  exists cfg ext stop d, rules_on cfg = false /\
-    ~ alloc cfg ext stop d <= 64 * N.of_nat (length d) + 2 * max_array cfg + 1048576.
-Proof. exact alloc_refuted_bare. Qed.
-Print Assumptions C08_full_refuted_chunk_without_validator.
+Theorem C08_full_holds : C08_full.
+Proof. exact alloc_full. Qed.
+Print Assumptions C08_full_holds.
 
-(* Defect class 2 (media type): with a validator and a 1 MiB limit, a 9-byte
-   document makes the reader allocate 1 GiB for the media-type string. *)
-Theorem C08_full_refuted_media_type :
-  exists cfg ext stop d, rules_on cfg = true /\ 0 < max_array cfg /\
-    ~ alloc cfg ext stop d <= 64 * N.of_nat (length d) + 2 * max_array cfg + 1048576.
-Proof. exact alloc_refuted_media. Qed.
-Print Assumptions C08_full_refuted_media_type.
+(* What is actually true is stronger: 14 bytes per document byte, no additive
+   constant and no MaxArraySizeBytes term (the validator's builtArrayBuffer only
+   ever holds bytes that were read, so the limit is not needed for the bound). *)
+Theorem C08_alloc_bound :
+  forall cfg ext stop d, alloc cfg ext stop d <= 14 * N.of_nat (length d).
+Proof. exact alloc_bound. Qed.
+Print Assumptions C08_alloc_bound.
 
-(* ... and under the library's default configuration (1 GiB) a 9-byte document asks for 8 GiB. *)
-Theorem C08_full_refuted_media_type_default_config :
-  ~ alloc (default_ccfg true) no_ext None [129; 0; 127; 243; 255; 255; 255; 255; 15]
-    <= 64 * 9 + 2 * max_array (default_ccfg true) + 1048576.
-Proof. exact alloc_refuted_media_default. Qed.
-Print Assumptions C08_full_refuted_media_type_default_config.
-
-(* ------------------------------------------------------------------ *)
-(* What holds for every document                                        *)
-(* ------------------------------------------------------------------ *)
-
-(* Reader + validator allocation is at most 12 bytes per document byte plus
-   twice the ONE announced length (if any) that the input could not satisfy. *)
-Theorem C08_alloc_general :
-  forall cfg ext stop d,
-    alloc cfg ext stop d <= 12 * N.of_nat (length d) + 2 * o_over (run cfg ext stop d).
-Proof. exact alloc_general. Qed.
-Print Assumptions C08_alloc_general.
-
-(* How large that announced length can be, by the field that carried it. *)
-Theorem C08_overrun_by_field :
-  forall cfg ext stop d,
-    let o := run cfg ext stop d in
-    match o_kind o with
-    | RNone => o_over o = 0
-    | RFixed => o_over o <= 240
-    | RUint => o_over o <= 1024
-    | RIdent => o_over o <= 100000
-    | RMedia => o_over o <= 4294967295
-    | RChunk => rules_on cfg = true -> 0 < max_array cfg -> max_array cfg < 9223372036854775808 ->
-                o_over o <= max_array cfg
-    end.
-Proof. exact overrun_by_field. Qed.
-Print Assumptions C08_overrun_by_field.
-
-(* ------------------------------------------------------------------ *)
-(* The property on the fragment that excludes exactly the defect classes *)
-(* ------------------------------------------------------------------ *)
-
-(* Validator in the pipeline, positive limit below 2^63.  Excluded: walks that
-   end inside the media-type string (defect class 2). *)
-Theorem C08_alloc_bound_partial :
-  forall cfg ext stop d,
-    rules_on cfg = true -> 0 < max_array cfg -> max_array cfg < 9223372036854775808 ->
-    o_kind (run cfg ext stop d) <> RMedia ->
-    alloc cfg ext stop d <= 12 * N.of_nat (length d) + 2 * max_array cfg + 200000.
-Proof. exact alloc_bound_rules. Qed.
-Print Assumptions C08_alloc_bound_partial.
-
-(* Any pipeline (bare decoder included).  Excluded: walks that end inside the
-   media-type string (class 2) or inside an array chunk (class 1). *)
-Theorem C08_alloc_bound_bare_partial :
-  forall cfg ext stop d,
-    o_kind (run cfg ext stop d) <> RMedia -> o_kind (run cfg ext stop d) <> RChunk ->
-    alloc cfg ext stop d <= 12 * N.of_nat (length d) + 200000.
+(* The bare decoder (no validator): 4 bytes per document byte. *)
+Theorem C08_alloc_bound_bare :
+  forall cfg ext stop d, rules_on cfg = false -> alloc cfg ext stop d <= 4 * N.of_nat (length d).
 Proof. exact alloc_bound_bare. Qed.
-Print Assumptions C08_alloc_bound_bare_partial.
+Print Assumptions C08_alloc_bound_bare.
 
-(* Documents the decoder accepts never cost more than 12 bytes per byte. *)
-Theorem C08_alloc_bound_accepted :
+(* Reader buffers and the validator's buffer separately. *)
+Theorem C08_reader_alloc_bound :
+  forall cfg ext stop d, al (o_st (run cfg ext stop d)) <= 4 * N.of_nat (length d).
+Proof. exact reader_alloc_bound. Qed.
+Print Assumptions C08_reader_alloc_bound.
+
+Theorem C08_validator_alloc_bound :
+  forall cfg ext stop d, val (o_st (run cfg ext stop d)) <= 10 * N.of_nat (length d).
+Proof. exact validator_alloc_bound. Qed.
+Print Assumptions C08_validator_alloc_bound.
+
+(* The buffer a decoder keeps after a document: its start size, or at most twice the document. *)
+Theorem C08_retained_buffer_bound :
   forall cfg ext stop d,
-    o_why (run cfg ext stop d) = None -> alloc cfg ext stop d <= 12 * N.of_nat (length d).
-Proof. exact alloc_bound_accepted. Qed.
-Print Assumptions C08_alloc_bound_accepted.
+    buf (o_st (run cfg ext stop d)) <= N.max cbeDecoderStartBufferSize (2 * N.of_nat (length d)).
+Proof. exact reader_buffer_bound. Qed.
+Print Assumptions C08_retained_buffer_bound.
 
 (* ------------------------------------------------------------------ *)
 (* Time                                                                 *)
 (* ------------------------------------------------------------------ *)
 
-(* The decoder's own work (bytes pulled + events delivered + bytes copied by the
-   validator) is linear in the document, for every document. *)
+(* The decoder's own work (bytes pulled + events delivered + bytes copied by
+   growBuffer + bytes copied by the validator) is linear in the document. *)
 Theorem C08_steps_linear :
-  forall cfg ext stop d, steps cfg ext stop d <= 13 * N.of_nat (length d) + 1.
+  forall cfg ext stop d, steps cfg ext stop d <= 17 * N.of_nat (length d) + 1.
 Proof. exact steps_linear. Qed.
 Print Assumptions C08_steps_linear.
 
-(* Counting the zero-filling of allocated buffers as well, time inherits the
-   allocation bound (and its defect). *)
-Theorem C08_time_general :
+(* Every event delivered is paid for by a byte of the document. *)
+Theorem C08_events_le_bytes :
   forall cfg ext stop d,
-    time cfg ext stop d <= 25 * N.of_nat (length d) + 1 + 2 * o_over (run cfg ext stop d).
-Proof. exact time_general. Qed.
-Print Assumptions C08_time_general.
+    nev (o_st (run cfg ext stop d)) <= nread (o_st (run cfg ext stop d)) + 1.
+Proof. exact events_le_bytes. Qed.
+Print Assumptions C08_events_le_bytes.
+
+(* Counting the zero-filling of allocated buffers as well. *)
+Theorem C08_time_linear :
+  forall cfg ext stop d, time cfg ext stop d <= 31 * N.of_nat (length d) + 1.
+Proof. exact time_linear. Qed.
+Print Assumptions C08_time_linear.
 
 (* ------------------------------------------------------------------ *)
-(* Non-vacuity                                                          *)
+(* Non-vacuity and the former witnesses                                 *)
 (* ------------------------------------------------------------------ *)
 
-(* hypotheses of C08_alloc_bound_partial on a document that really overruns: a
-   4000-byte chunk announced under a 4 KiB limit and absent *)
-Example C08_partial_example :
-  let cfg := {| rules_on := true; max_array := 4096; max_doc := cbeDefaultMaxDocumentSizeBytes |} in
-  let d := [129; 0; 154; 147; 192; 62; 97] in
-  rules_on cfg = true /\ 0 < max_array cfg /\ max_array cfg < 9223372036854775808 /\
-  o_kind (run cfg no_ext None d) = RChunk /\ o_over (run cfg no_ext None d) = 4000 /\
-  alloc cfg no_ext None d = 8000.
-Proof. vm_compute. repeat split; reflexivity. Qed.
-
-(* an accepted document attaining the reader's factor 2 (300-byte string: 600-byte buffer + the validator's 300) *)
-Example C08_accepted_example :
-  let cfg := {| rules_on := true; max_array := 4096; max_doc := cbeDefaultMaxDocumentSizeBytes |} in
-  let d := [129; 0; 144; 216; 4] ++ nrep 97 300 in
-  o_why (run cfg no_ext None d) = None /\ alloc cfg no_ext None d = 900 /\ steps cfg no_ext None d = 611.
-Proof. vm_compute. repeat split; reflexivity. Qed.
-
-(* the witnesses of the refutations, evaluated *)
-Example C08_witness_values :
+(* the documents that used to cost 2 GiB / 1 GiB / 8 GiB now cost nothing and end in an error *)
+Example C08_former_witnesses :
   alloc {| rules_on := false; max_array := 1048576; max_doc := cbeDefaultMaxDocumentSizeBytes |} no_ext None
-        [129; 0; 147; 128; 128; 128; 128; 8] = 2147483648 /\
+        [129; 0; 147; 128; 128; 128; 128; 8] = 0 /\
   alloc {| rules_on := true; max_array := 1048576; max_doc := cbeDefaultMaxDocumentSizeBytes |} no_ext None
-        [129; 0; 127; 243; 128; 128; 128; 128; 2] = 1073741824.
-Proof. vm_compute. split; reflexivity. Qed.
+        [129; 0; 127; 243; 128; 128; 128; 128; 2] = 0 /\
+  alloc (default_ccfg true) no_ext None [129; 0; 127; 243; 255; 255; 255; 255; 15] = 0 /\
+  o_why (run {| rules_on := false; max_array := 1048576; max_doc := cbeDefaultMaxDocumentSizeBytes |} no_ext None
+             [129; 0; 147; 128; 128; 128; 128; 8]) = Some WShort.
+Proof. vm_compute. repeat split; reflexivity. Qed.
+
+(* the bound is not slack by much: an accepted 1005-byte document (one 1000-byte string) makes the
+   reader allocate 254 + 508 + 1016 = 1778 bytes and the validator 1000 *)
+Example C08_accepted_example :
+  let cfg := {| rules_on := true; max_array := 1048576; max_doc := cbeDefaultMaxDocumentSizeBytes |} in
+  let d := [129; 0; 144; 208; 15] ++ nrep 97 1000 in
+  o_why (run cfg no_ext None d) = None /\
+  al (o_st (run cfg no_ext None d)) = 1778 /\ buf (o_st (run cfg no_ext None d)) = 1016 /\
+  alloc cfg no_ext None d = 2778 /\ steps cfg no_ext None d = 2900.
+Proof. vm_compute. repeat split; reflexivity. Qed.
